@@ -227,8 +227,52 @@ def run(ctx, anchors=None):
              "do_addr_to_spk erases the version byte without ever looking at it and always builds a pay-to-pubkey-hash script: a P2SH address (version 5, `3J98t1WpEZ73CNmQviecrnyiWrnqRhWNLy`) "
              "is silently turned into a P2PKH script paying to the script hash, and scriptpubkey-to-addr of the result is a different address")
 
+    # ---- R14.7 the address transforms recognise a failed decode by the emptiness of the value (do_addr_to_spk: `do_base58chkdec();
+    # if (data.empty()) return;`), so a base58 decoder that reports failure must leave its output untouched or empty: on every path of
+    # a bool-returning decoder of base58.cpp whose result is not the constant true, the vector it fills is as it came, cleared last, or
+    # left to another such decoder it delegates to.
+    ctx.rule("R14.7", "a base58 decoder that reports failure leaves its output vector untouched or cleared (callers test emptiness)")
+    relies = [f for f in fb.funcs.values() if f.body is not None and f.rec == "Value" and
+              any(x["k"] == "mcall" and x.get("n") == "empty" and astq.estr(x.get("obj")) in ("data", "this->data") for x in f.nodes()) and
+              any(x["k"] == "mcall" and (x.get("n") or "").startswith("do_base58") for x in f.nodes())]
+    if not relies:
+        ctx.note("R14.7: no Value transform tests data.empty() after a base58 decode any more; the decoders' failure paths are not judged")
+    else:
+        decs = [f for f in fb.funcs.values() if f.body is not None and f.file == "base58.cpp" and f.name.startswith("DecodeBase58") and
+                any((p_.get("ty") or "").replace(" ", "") == "std::vector<unsignedchar>&" for p_ in f.params)]
+        if not decs:
+            raise AnalysisBroken("R14.7: no DecodeBase58* function with a vector out-parameter in base58.cpp")
+        dec_names = {f.name for f in decs}
+        for f in sorted(decs, key=lambda f_: f_.line):
+            outn = [p_["n"] for p_ in f.params if (p_.get("ty") or "").replace(" ", "") == "std::vector<unsignedchar>&"][0]
+            X147 = _sx14.Explorer(prog, inline=lambda fn, n_: False, transparent=lambda n_: True)
+            try:
+                outs = [o for o in X147.explore(f, limit=600) if o.status == "ret"]
+            except _sx14.Unsupported as e:
+                ctx.note("R14.7: %s not explored (%s)" % (f.name, str(e)[:50]))
+                continue
+            ctx.site(len(outs))
+            bad147 = None
+            for o in outs:
+                if o.ret == _sx14.C(1):
+                    continue
+                v = _sx14.Explorer.var(o, outn)
+                if v is None or v == ("a", outn):
+                    continue
+                if isinstance(v, tuple) and v[0] == "ap" and v[1] == "mut:clear":
+                    continue
+                if isinstance(v, tuple) and v[0] == "ap" and v[1].startswith("out:") and v[1][4:].split("#")[0] in dec_names and \
+                        isinstance(o.ret, tuple) and o.ret[0] == "ap" and o.ret[1] == v[1][4:].split("#")[0]:
+                    continue      # `return Decode...(.., out, ..)`: result and output are the delegate's
+                bad147 = (_sx14.show(o.ret)[:50], _sx14.show(v)[:70])
+            ctx.inst(bad147 is None, "R14.7", "failure-leaves-output-empty:%s(%s)" % (f.name, "char*" if "char *" in (f.params[0].get("ty") or "") else "string"), f.loc(),
+                     "on the %d returning paths of %s a result other than `true` comes with the output untouched or cleared" % (len(outs), f.name),
+                     "%s can return `%s` with its output left as `%s`: a string that decodes but fails the check leaves the unverified bytes in the value, and %s (which tests data.empty()) goes on to use them"
+                     % ((f.name, bad147[0], bad147[1], relies[0].name) if bad147 else (f.name, "", "", "")))
+
 
 MUTANTS = [
+    dict(name="checksum-mismatch-keeps-the-payload", file="base58.cpp", find="    if (memcmp(&hash, &vchRet[vchRet.size() - 4], 4) != 0) {\n        vchRet.clear();\n        return false;", replace="    if (memcmp(&hash, &vchRet[vchRet.size() - 4], 4) != 0) {\n        return false;", expect=["R14.7:failure-leaves-output-empty:DecodeBase58Check"]),
     dict(name="address-version-ignored", file="value.h", find="        if (data[0] != 0) {\n            fprintf(stderr, \"unsupported address version", replace="        if (false) {\n            fprintf(stderr, \"unsupported address version", expect=["R14.6:version-byte-inspected"]),
     dict(name="sub-negates-mod-2^256", file="value.cpp", find="if (g.EqualTo(0)) b = -b; else if (!b.EqualTo(0)) b = g - b;", replace="b = -b;", expect=["R14.5:modular-operand:do_sub:b"]),
     dict(name="inline-alias-removed", file="value.h", find="        if (fun == \"b32d\") { do_bech32dec(); return true; }\n", replace="", expect=["R14.1:inline=b32d"]),
